@@ -102,6 +102,10 @@ func vStr(name string) string {
 		return ""
 	}
 	s, _ := v.(string)
+	if len(s) >= 4 && s[:4] == "enc:" {
+		// the encoding of another modelled tree (content re-decoded by the code under test)
+		return string(vBuildNode(s[4:], "", 8).Bytes())
+	}
 	if len(s) >= 4 && s[:4] == "b64:" {
 		b, _ := base64.StdEncoding.DecodeString(s[4:])
 		return string(b)
@@ -168,6 +172,10 @@ func vNodeName(root, path string) string {
 
 func vBuildNode(root, path string, depth int) *ber.Packet {
 	name := vNodeName(root, path)
+	if _, ok := vLookup(name + ".class"); !ok {
+		// a node the path never looked at: any well-formed node will do (NULL)
+		return ber.Encode(ber.ClassUniversal, ber.TypePrimitive, ber.TagNULL, nil, "")
+	}
 	class := ber.Class(vNum(name + ".class"))
 	ttype := ber.Type(vNum(name + ".type"))
 	tag := ber.Tag(vNum(name + ".tag"))
